@@ -252,6 +252,12 @@ def judge_c15(d):
     t = q.split()
     if "panic" in impl:
         return "SOCKS5 code panicked"
+    if t[1] == "fwd" and " | connected" in impl and " | connected" in model:
+        di, dm = impl.rsplit(" ", 1)[1], model.rsplit(" ", 1)[1]
+        if di != dm:
+            return ("a connection through the SOCKS5 forwarder whose proxy answered the CONNECT with success then delivers %r; behind its reply "
+                    "the proxy sent %r (the reply reader must take exactly the reply: nothing of it is payload, nothing behind it is lost)" % (
+                        (b"" if di == "-" else unhex(di))[:80], (b"" if dm == "-" else unhex(dm))[:80]))
     if t[1] == "dialogue":
         try:
             ib, io = [x.strip() for x in impl.split("|")]
@@ -833,7 +839,7 @@ PROPS = {
              "TCP server; relayed datagrams through a real UDP association"
              " The forwarder runs also compare what the upstream received with the model's client messages (the scripted upstream answers step by step), with IPv4-mapped, IPv4-compatible, NAT64, loopback and unspecified IPv6 literals among the destinations"
              " The forwarder block reads the established connection: behind a success reply the destination's bytes come out exactly (afterDialogue)",
-        explanation="theorems selection_wellformed, userpass_wellformed_or_fails, request_wellformed_or_fails, extended_wellformed, "
+        explanation="reply_v4_consumes_exactly, reply_v6_consumes_exactly (the reply reader takes the reply and nothing behind it); theorems selection_wellformed, userpass_wellformed_or_fails, request_wellformed_or_fails, extended_wellformed, "
                     "split_first_colon, sent_is_encoded_messages, proceeds_only_if_offered_and_success, failure_reply_fails_request, "
                     "reply_truncation_is_error, udp_unwrap_wrap, udp_unwrap_no_panic about TT/Model/Socks5.lean",
         trusted=["base64 decoding (the decoded credential bytes are a model input)", "kernel connect() of the association socket"],
@@ -1011,7 +1017,8 @@ PROPS = {
              " Plus 4 CONNECT sessions whose relay side is dropped without an orderly end while the client stays connected and silent: "
              "the session must end and the client must see its connection closed"
              " Relaying phase against TT/Model/H1Relay.lean: 200 (thorough 1500) sessions in which the client sends 1-5 payload segments and the peer writes and reads in a random script, ending with the peer's orderly end (3 in 5), the relay side dropped without one, or the client's end of stream: what the upload side was handed, what the client was sent and how the relaying listen() ended (graceful / failed / still running) are compared with the model's run over the same events"
-             " Four of the valid heads end their lines with a bare LF (all lines, the last one only, the first one only, no header at all); the driver's concrete parser ends the head at its first empty line, CR LF or LF",
+             " Four of the valid heads end their lines with a bare LF (all lines, the last one only, the first one only, no header at all); the driver's concrete parser ends the head at its first empty line, CR LF or LF"
+             " Three origin-form targets with a query (authority from Host); the recognised URI's path and query are compared with the target as the client wrote it",
         explanation="theorems head_segmentation_invariant, payload_exact, incomplete_head_waits, no_spin, head_bounded, oversize_rejected, "
                     "response_wellformed about TT/Model/H1.lean under the hypothesis PrefixConsistent(parser)"
                     "; relaying_goes_on, relayed_until_close, session_ends_with_either_side, abort_is_not_graceful, "
@@ -1055,7 +1062,8 @@ PROPS = {
              "(a stream whose input is re-offered forever keeps the idle timeout from firing): no panic, no busy loop, never more body "
              "bytes delivered than the origin produced; the over-long and bodiless classes are also answered by the C17 model"
              " Whole ICMP request frames delivered in pieces (cut after 1, 10, 22 bytes) with every tail behind them and another frame after that. Every parser case is announced to the progress watchdog (40 s): a busy loop ends the suite with that case named"
-             " Malformed ICMP packets from the network (suite c11, borrowed): 9 ICMPv4 and 10 ICMPv6 packets that pass the kernel's filter and the endpoint's parser refuses (unassigned codes, messages shorter than their minimum, echo replies cut short) sent to the loopback addresses while the real forwarder listens on raw sockets; after each the listener must still run and a ping must still be answered",
+             " Malformed ICMP packets from the network (suite c11, borrowed): 9 ICMPv4 and 10 ICMPv6 packets that pass the kernel's filter and the endpoint's parser refuses (unassigned codes, messages shorter than their minimum, echo replies cut short) sent to the loopback addresses while the real forwarder listens on raw sockets; after each the listener must still run and a ping must still be answered"
+             " The live ICMP waiter-table histories (suite c11) are named for the progress watchdog (stall limit 90 s): a listener that wedges on an undeliverable reply stops the history that wedged it",
         explanation="theorems udp_stream_no_panic, udp_step_safe, icmp_request_decoder_safe, ip_header_skipping_safe, icmp_packets_safe, "
                     "client_hello_prebuffer_bounded, h1_head_bounded_and_progress, socks_udp_datagram_safe, socks_truncated_reply_is_error, "
                     "rules_malformed_safe, forwarded_sink_never_spins / _consumes / _failure_is_final (every write of the plain-HTTP response "
@@ -1140,7 +1148,8 @@ PROPS = {
              " One live server is on [::1] and every second client source label is IPv6 (direct forwarder; the SOCKS5 relay of the harness is IPv4-only)"
              " One reply in twelve is 65000 or 65497 bytes long"
              " On the direct path replies of 65498..65507 bytes (up to the maximal IPv4 UDP payload) as well: ten directed histories and half of the large random replies"
-             " A destination that restarts (its port closes, the client sends, it re-binds and sends to the flow): the error the flow's socket reports on receive ends the flow in the table, the socket and the gauge alike, and the client's next datagram starts a fresh flow that reaches the destination",
+             " A destination that restarts (its port closes, the client sends, it re-binds and sends to the flow): the error the flow's socket reports on receive ends the flow in the table, the socket and the gauge alike, and the client's next datagram starts a fresh flow that reaches the destination"
+             " Replies the client's sink drops (door drop_next): on a plain-DNS flow whose only query is answered by a dropped reply the flow is released all the same, nothing is counted as relayed, and a late datagram from the server is not relayed; on an ordinary flow the flow stays and the next reply is delivered",
         explanation="theorems direct_reply_received_whole, socks_relay_datagram_received_whole (receive buffers read from the source by the translator), sent_to_own_destination, datagram_step_output, reply_labelled_with_own_flow, reply_delivered_on_live_flow, "
                     "tables_coupled, sockets_from_history, idle_flow_released, tick_expires_all_idle, fresh_flow_survives_advance, "
                     "tick_period, dns_flow_released_when_answered, dns_flow_kept_while_pending, dns_query_counts, "
